@@ -305,7 +305,16 @@ fn parse_impl(
     input: ParseStream,
 ) -> syn::Result<InputImpl> {
     let impl_token = input.parse()?;
-    let trait_path = input.parse()?;
+    let trait_path: syn::Path = input.parse()?;
+    if let Some(last_segment) = trait_path.segments.last() {
+        // `EntraitT` is the (only) generic argument, and it is added by the macro
+        if !last_segment.arguments.is_none() {
+            return Err(syn::Error::new(
+                last_segment.arguments.span(),
+                "Generic arguments are not supported on the trait of an entraited impl block",
+            ));
+        }
+    }
     let for_token = input.parse()?;
     let self_ty = input.parse()?;
 
